@@ -2,7 +2,7 @@ import StepupModel.Lemmas.EverOutputChain
 /-!
 # Product rows and their declarations: every request
 
-`exec_inv`: every accepted request keeps `Inv All A` (`Lemmas/EverOutputBase.lean`), provided the paths
+`exec_inv`: every accepted request keeps `Inv O All A` (`Lemmas/EverOutputBase.lean`), provided the paths
 a `define` or `amend` declares as outputs or volatile outputs are in `A`; the other requests are unconditional.
 No property statements here.
 -/
@@ -13,38 +13,38 @@ set_option linter.unusedVariables false
 
 /-! ## `reset_for_rerun`, `mark_completed` -/
 
-theorem detachCreatedSteps_inv {A : String → Prop} (k : Key) : Preserves (Inv All A) (fun s => s.detachCreatedSteps k) := by
+theorem detachCreatedSteps_inv {O : Key → Prop} {A : String → Prop} (k : Key) : Preserves (Inv O All A) (fun s => s.detachCreatedSteps k) := by
   intro s s' hp h
   replace h : s.detachCreatedSteps k = .ok s' := h
   unfold KState.detachCreatedSteps at h
   exact foldlM_detach_inv _ s s' hp h
 
-theorem detachProductsWhere_inv {A : String → Prop} (k : Key) (p : Node → Bool) :
-    Preserves (Inv All A) (fun s => s.detachProductsWhere k p) := by
+theorem detachProductsWhere_inv {O : Key → Prop} {A : String → Prop} (k : Key) (p : Node → Bool) :
+    Preserves (Inv O All A) (fun s => s.detachProductsWhere k p) := by
   intro s s' hp h
   replace h : s.detachProductsWhere k p = .ok s' := h
   unfold KState.detachProductsWhere at h
   exact foldlM_detach_inv _ s s' hp h
 
-theorem dropDynamicInputs_inv {A : String → Prop} (s : KState) (k : Key) (hp : Inv All A s) : Inv All A (s.dropDynamicInputs k) := by
+theorem dropDynamicInputs_inv {O : Key → Prop} {A : String → Prop} (s : KState) (k : Key) (hp : Inv O All A s) : Inv O All A (s.dropDynamicInputs k) := by
   unfold KState.dropDynamicInputs
   refine inv_modify_core _ _ (fun _ => rfl) (deleteDeps_inv _ ?_)
   exact (flagDynamicSuppliers_soft (s0 := s) s k (SP.refl hp.keys)).2 |> hp.soft
 
-theorem dropDynamicSink_inv {A : String → Prop} (step k : Key) : Preserves (Inv All A) (fun s => s.dropDynamicSink step k) := by
+theorem dropDynamicSink_inv {O : Key → Prop} {A : String → Prop} (step k : Key) : Preserves (Inv O All A) (fun s => s.dropDynamicSink step k) := by
   intro s s' hp h
   replace h : s.dropDynamicSink step k = .ok s' := h
   unfold KState.dropDynamicSink at h
   exact detach_inv k _ s' (deleteDeps_inv _ hp) h
 
 /-- `Step.reset_for_rerun` -/
-theorem resetForRerun_inv {A : String → Prop} (k : Key) : Preserves (Inv All A) (fun s => s.resetForRerun k) := by
+theorem resetForRerun_inv {O : Key → Prop} {A : String → Prop} (k : Key) : Preserves (Inv O All A) (fun s => s.resetForRerun k) := by
   intro s s' hp h
   replace h : s.resetForRerun k = .ok s' := h
   unfold KState.resetForRerun at h
   dsimp only at h
   refine bind_ok h (fun s2 h2 => ?_) ?_
-  · exact foldlM_preserves (Inv All A) _ _ (fun t => dropDynamicSink_inv k t) _ s2 (dropDynamicInputs_inv s k hp) h2
+  · exact foldlM_preserves (Inv O All A) _ _ (fun t => dropDynamicSink_inv k t) _ s2 (dropDynamicInputs_inv s k hp) h2
   · intro s2 s2' hp2 hh2
     refine bind_ok hh2 (fun s3 h3 => detachCreatedSteps_inv k s2 s3 hp2 h3) ?_
     intro s3 s3' hp3 hh3
@@ -53,15 +53,15 @@ theorem resetForRerun_inv {A : String → Prop} (k : Key) : Preserves (Inv All A
     refine bind_ok hh4 (fun s5 h5 => detachProductsWhere_inv k _ s4 s5 hp4 h5) ?_
     exact Inv.of_soft (fun s0 => outdateBuilt_soft k)
 
-theorem completeFailure_inv {A : String → Prop} (cfg : KConfig) (k : Key) (wd : Bool) :
-    Preserves (Inv All A) (fun s => s.completeFailure cfg k wd) := by
+theorem completeFailure_inv {O : Key → Prop} {A : String → Prop} (cfg : KConfig) (k : Key) (wd : Bool) :
+    Preserves (Inv O All A) (fun s => s.completeFailure cfg k wd) := by
   intro s s' hp h
   replace h : s.completeFailure cfg k wd = .ok s' := h
   unfold KState.completeFailure at h
   refine bind_ok h (fun s1 h1 => Inv.of_soft (fun s0 => outdateBuiltProducts_soft k) s s1 hp h1) ?_
   intro s1 s1' hp1 hh1
   refine bind_ok hh1 (fun s2 h2 => ?_) ?_
-  · have hb : Inv All A (s1.bumpDeferCount k wd) := by
+  · have hb : Inv O All A (s1.bumpDeferCount k wd) := by
       unfold KState.bumpDeferCount
       split
       · exact inv_modify_core _ _ (fun _ => rfl) hp1
@@ -78,8 +78,8 @@ theorem completeFailure_inv {A : String → Prop} (cfg : KConfig) (k : Key) (wd 
       · simp only [pure, Except.pure, Except.ok.injEq] at h3; subst h3; exact hp2
     · exact preserves_pure _ (fun s hs => (deleteHash_soft (s0 := s) s k (SP.refl hs.keys)).2 |> hs.soft)
 
-theorem markCompleted_inv {A : String → Prop} (cfg : KConfig) (k : Key) (nh : Option Nat) (wd : Bool) (s s' : KState) (b : Bool)
-    (hp : Inv All A s) (h : s.markCompleted cfg k nh wd = .ok (s', b)) : Inv All A s' := by
+theorem markCompleted_inv {O : Key → Prop} {A : String → Prop} (cfg : KConfig) (k : Key) (nh : Option Nat) (wd : Bool) (s s' : KState) (b : Bool)
+    (hp : Inv O All A s) (h : s.markCompleted cfg k nh wd = .ok (s', b)) : Inv O All A s' := by
   unfold KState.markCompleted at h
   cases nh with
   | none =>
@@ -101,7 +101,7 @@ theorem markCompleted_inv {A : String → Prop} (cfg : KConfig) (k : Key) (nh : 
 
 /-! ## `_update_meta`, `pop_next_job` -/
 
-theorem Inv.frame {A : String → Prop} {s s' : KState} (h : Inv All A s) (hf : AfterFrame s s') : Inv All A s' := by
+theorem Inv.frame {O : Key → Prop} {A : String → Prop} {s s' : KState} (h : Inv O All A s) (hf : AfterFrame s s') : Inv O All A s' := by
   refine h.keep ?_ (keysUnique_frame hf h.keys)
   have hrows : All₂ (KeepRow All) s.nodes s'.nodes := by
     refine all₂_of_map_eq eraseAfter ?_ _ _ hf.2.2.symm
@@ -114,7 +114,7 @@ theorem Inv.frame {A : String → Prop} {s s' : KState} (h : Inv All A s) (hf : 
   intro n' hn' _
   exact forall₂_mem_right hrows n' hn'
 
-theorem updateMeta_inv {A : String → Prop} (cfg : KConfig) : Preserves (Inv All A) (fun s => s.updateMeta cfg) := by
+theorem updateMeta_inv {O : Key → Prop} {A : String → Prop} (cfg : KConfig) : Preserves (Inv O All A) (fun s => s.updateMeta cfg) := by
   intro s s' hp h
   replace h : s.updateMeta cfg = .ok s' := h
   unfold KState.updateMeta at h
@@ -123,8 +123,8 @@ theorem updateMeta_inv {A : String → Prop} (cfg : KConfig) : Preserves (Inv Al
   refine bind_ok hh1 (fun s2 h2 => hp1.frame (updateMetaAfter_frame s1 s2 cfg h2)) ?_
   exact preserves_pure _ (fun s hs => (updateMetaReady_soft (s0 := s) s (SP.refl hs.keys)).2 |> hs.soft)
 
-theorem popNext_inv {A : String → Prop} (cfg : KConfig) (choice : Option Key) (s s' : KState) (d : Dispatch)
-    (hp : Inv All A s) (h : s.popNext cfg choice = .ok (s', d)) : Inv All A s' := by
+theorem popNext_inv {O : Key → Prop} {A : String → Prop} (cfg : KConfig) (choice : Option Key) (s s' : KState) (d : Dispatch)
+    (hp : Inv O All A s) (h : s.popNext cfg choice = .ok (s', d)) : Inv O All A s' := by
   unfold KState.popNext at h
   simp only [bind, Except.bind] at h
   cases hu : s.updateMeta cfg with
@@ -162,8 +162,8 @@ theorem popNext_inv {A : String → Prop} (cfg : KConfig) (choice : Option Key) 
 /-! ## Cleanup -/
 
 /-- Every row of `s'` has the cleanup columns of a row of `s`. -/
-theorem Inv.cores_sub {A : String → Prop} {s s' : KState} (h : Inv All A s) (hk : KeysUnique s')
-    (hc : ∀ c ∈ s'.cores, c ∈ s.cores) : Inv All A s' := by
+theorem Inv.cores_sub {O : Key → Prop} {A : String → Prop} {s s' : KState} (h : Inv O All A s) (hk : KeysUnique s')
+    (hc : ∀ c ∈ s'.cores, c ∈ s.cores) : Inv O All A s' := by
   refine h.keep ?_ hk
   intro n' hn' _
   have : n'.core ∈ s.cores := hc _ (List.mem_map.2 ⟨n', hn', rfl⟩)
@@ -174,7 +174,7 @@ theorem Inv.cores_sub {A : String → Prop} {s s' : KState} (h : Inv All A s) (h
   have h4 : n.fstate = n'.fstate := congrArg (·.2.2.2.1) hcore
   exact ⟨n, hn, h1.symm, by rw [h4], fun _ => ⟨.inl h2.symm, fun hd => .inl (by rw [h3]; exact hd)⟩⟩
 
-theorem deleteDetachedBase_inv {A : String → Prop} : Preserves (Inv All A) (fun s => s.deleteDetachedBase) := by
+theorem deleteDetachedBase_inv {O : Key → Prop} {A : String → Prop} : Preserves (Inv O All A) (fun s => s.deleteDetachedBase) := by
   intro s s' hp h
   replace h : s.deleteDetachedBase = .ok s' := h
   obtain ⟨D, spec⟩ := deleteDetachedBase_spec s s' h
@@ -183,33 +183,33 @@ theorem deleteDetachedBase_inv {A : String → Prop} : Preserves (Inv All A) (fu
   rw [spec.cores] at hc
   exact (List.mem_filter.1 hc).1
 
-theorem treeInner_inv {A : String → Prop} (f : Node) (st : KState) (r : ForInStep KState) (hp : Inv All A st)
-    (h : treeInner f st = .ok r) : Inv All A r.value := by
+theorem treeInner_inv {O : Key → Prop} {A : String → Prop} (f : Node) (st : KState) (r : ForInStep KState) (hp : Inv O All A st)
+    (h : treeInner f st = .ok r) : Inv O All A r.value := by
   unfold treeInner at h
   split at h
-  · refine bind_ok_gen h (Inv All A) (fun a ha => detach_inv f.key st a hp ha) (fun r => Inv All A r.value) ?_
+  · refine bind_ok_gen h (Inv O All A) (fun a ha => detach_inv f.key st a hp ha) (fun r => Inv O All A r.value) ?_
     intro a r' ha hh
     simp only [pure, Except.pure, Except.ok.injEq] at hh; subst hh; exact ha
   · simp only [pure, Except.pure, Except.ok.injEq] at h; subst h; exact hp
 
-theorem treeOuter_inv {A : String → Prop} (t : Node) (st : KState) (r : ForInStep KState) (hp : Inv All A st)
-    (h : treeOuter t st = .ok r) : Inv All A r.value := by
+theorem treeOuter_inv {O : Key → Prop} {A : String → Prop} (t : Node) (st : KState) (r : ForInStep KState) (hp : Inv O All A st)
+    (h : treeOuter t st = .ok r) : Inv O All A r.value := by
   unfold treeOuter at h
   simp only at h
-  refine bind_ok_gen h (Inv All A) (fun a ha => ?_) (fun r => Inv All A r.value) ?_
-  · refine forIn_except_inv _ treeInner (Inv All A) st a hp ?_ ha
+  refine bind_ok_gen h (Inv O All A) (fun a ha => ?_) (fun r => Inv O All A r.value) ?_
+  · refine forIn_except_inv _ treeInner (Inv O All A) st a hp ?_ ha
     intro f _ b r' hb hf
     exact treeInner_inv f b r' hb hf
   · intro a r' ha hh
     simp only [pure, Except.pure, Except.ok.injEq] at hh; subst hh; exact ha
 
 /-- `Workflow.delete_detached` -/
-theorem deleteDetached_inv {A : String → Prop} : Preserves (Inv All A) (fun s => s.deleteDetached) := by
+theorem deleteDetached_inv {O : Key → Prop} {A : String → Prop} : Preserves (Inv O All A) (fun s => s.deleteDetached) := by
   intro s s' hp h
   replace h : s.deleteDetached = .ok s' := h
   rw [deleteDetached_eq] at h
   refine bind_ok h (fun st hst => ?_) deleteDetachedBase_inv
-  refine forIn_except_inv _ treeOuter (Inv All A) s st hp ?_ hst
+  refine forIn_except_inv _ treeOuter (Inv O All A) s st hp ?_ hst
   intro t _ b r' hb hf
   exact treeOuter_inv t b r' hb hf
 
@@ -221,55 +221,63 @@ def ReqDeclares : Req → String → Prop
   | .amend _ _ _ out vol _, p => p ∈ normPaths out ++ normPaths vol
   | _, _ => False
 
-/-- **Every accepted request keeps the invariant**, when what it declares as a product is in `A`. -/
-theorem exec_inv {A : String → Prop} (cfg : KConfig) (r : Req) (s : KState) (res : KState × String)
-    (hd : ∀ p, ReqDeclares r p → A p) (hp : Inv All A s) (h : s.exec cfg r = .ok res) : Inv All A res.1 := by
+/-- The node an `amend` request is addressed to. -/
+def ReqAmends : Req → Key → Prop
+  | .amend k _ _ _ _ _, x => x = k
+  | _, _ => False
+
+/-- **Every accepted request keeps the invariant**, when what it declares as a product is in `A`, every
+step is in `O`, and so is the node of an `amend` (when it is a step or a tree: otherwise the request is
+rejected). -/
+theorem exec_inv {O : Key → Prop} {A : String → Prop} (cfg : KConfig) (r : Req) (s : KState) (res : KState × String)
+    (hstep : ∀ c, c.kind = .step → O c) (ho : ∀ k, ReqAmends r k → OwnerKind k → O k)
+    (hd : ∀ p, ReqDeclares r p → A p) (hp : Inv O All A s) (h : s.exec cfg r = .ok res) : Inv O All A res.1 := by
   cases r with
   | define c d =>
     simp only [KState.exec] at h
-    refine bind_ok_gen h (fun a => Inv All A a.1) (fun a ha => defineStep_inv cfg c d s a
+    refine bind_ok_gen h (fun a => Inv O All A a.1) (fun a ha => defineStep_inv cfg c d s a hstep
       (fun p hpm => hd p (List.mem_append_left _ hpm)) (fun p hpm => hd p (List.mem_append_right _ hpm)) hp ha)
-      (fun r => Inv All A r.1) ?_
+      (fun r => Inv O All A r.1) ?_
     intro a b ha hb; obtain ⟨st, chk⟩ := a
     simp only [pure, Except.pure, Except.ok.injEq] at hb; subst hb; exact ha
   | amend k inp env out vol conc =>
     simp only [KState.exec] at h
-    refine bind_ok_gen h (fun a => Inv All A a.1) (fun a ha => amendStep_inv cfg k inp env out vol conc s a
+    refine bind_ok_gen h (fun a => Inv O All A a.1) (fun a ha => amendStep_inv cfg k inp env out vol conc s a (ho k rfl)
       (fun p hpm => hd p (List.mem_append_left _ hpm)) (fun p hpm => hd p (List.mem_append_right _ hpm)) hp ha)
-      (fun r => Inv All A r.1) ?_
+      (fun r => Inv O All A r.1) ?_
     intro a b ha hb; obtain ⟨st, chk⟩ := a
     simp only [pure, Except.pure, Except.ok.injEq] at hb; subst hb; exact ha
   | static c ps =>
     simp only [KState.exec] at h
-    refine bind_ok_gen h (fun a => Inv All A a.1) (fun a ha => declareStaticFiles_inv cfg c ps s a hp ha)
-      (fun r => Inv All A r.1) ?_
+    refine bind_ok_gen h (fun a => Inv O All A a.1) (fun a ha => declareStaticFiles_inv cfg c ps s a hp ha)
+      (fun r => Inv O All A r.1) ?_
     intro a b ha hb; obtain ⟨st, chk⟩ := a
     simp only [pure, Except.pure, Except.ok.injEq] at hb; subst hb; exact ha
   | tree c p =>
     simp only [KState.exec] at h
-    refine bind_ok_gen h (fun a => Inv All A a.1) (fun a ha => registerStaticTree_inv cfg c p s a hp ha)
-      (fun r => Inv All A r.1) ?_
+    refine bind_ok_gen h (fun a => Inv O All A a.1) (fun a ha => registerStaticTree_inv cfg c p s a hp ha)
+      (fun r => Inv O All A r.1) ?_
     intro a b ha hb; obtain ⟨st, chk⟩ := a
     simp only [pure, Except.pure, Except.ok.injEq] at hb; subst hb; exact ha
   | declStatic c ts fs ps =>
     simp only [KState.exec] at h
-    refine bind_ok_gen h (fun a => Inv All A a.1) (fun a ha => declareStaticRequest_inv cfg c ts fs ps s a hp ha)
-      (fun r => Inv All A r.1) ?_
+    refine bind_ok_gen h (fun a => Inv O All A a.1) (fun a ha => declareStaticRequest_inv cfg c ts fs ps s a hp ha)
+      (fun r => Inv O All A r.1) ?_
     intro a b ha hb; obtain ⟨st, chk⟩ := a
     simp only [pure, Except.pure, Except.ok.injEq] at hb; subst hb; exact ha
   | nglob k p ms => exact Inv.of_soft (fun s0 => registerNglob_soft k p ms) s _ hp (StableG.unitOut_ok h)
   | hashes u c => exact Inv.of_soft (fun s0 => updateFileHashes_soft u c) s _ hp (StableG.unitOut_ok h)
   | pop c =>
     simp only [KState.exec] at h
-    refine bind_ok_gen h (fun a => Inv All A a.1) (fun a ha => popNext_inv cfg c s a.1 a.2 hp ha) (fun r => Inv All A r.1) ?_
+    refine bind_ok_gen h (fun a => Inv O All A a.1) (fun a ha => popNext_inv cfg c s a.1 a.2 hp ha) (fun r => Inv O All A r.1) ?_
     intro a b ha hb; obtain ⟨st, d⟩ := a
     simp only [pure, Except.pure, Except.ok.injEq] at hb; subst hb; exact ha
   | updateMeta => exact updateMeta_inv cfg s _ hp (StableG.unitOut_ok h)
   | resetRerun k => exact resetForRerun_inv k s _ hp (StableG.unitOut_ok h)
   | completed k nh wd =>
     simp only [KState.exec] at h
-    refine bind_ok_gen h (fun a => Inv All A a.1) (fun a ha => markCompleted_inv cfg k nh wd s a.1 a.2 hp ha)
-      (fun r => Inv All A r.1) ?_
+    refine bind_ok_gen h (fun a => Inv O All A a.1) (fun a ha => markCompleted_inv cfg k nh wd s a.1 a.2 hp ha)
+      (fun r => Inv O All A r.1) ?_
     intro a b ha hb; obtain ⟨st, d⟩ := a
     simp only [pure, Except.pure, Except.ok.injEq] at hb; subst hb; exact ha
   | setState k stt => exact Inv.of_soft (fun s0 => setStepState_soft k stt false) s _ hp (StableG.unitOut_ok h)
